@@ -500,6 +500,9 @@ fn gen_c09_virtual(tier: &str, seed: u64) -> Vec<Vec<String>> {
 }
 pub fn gen_c06(tier: &str, seed: u64) -> Vec<Vec<String>> {
     let mut v = gen_with(Opts { prop: "C06", size: true, age: true, force_rot: true, restarts: 4, cleanup: false, faults: false, ext: false, modes: false, max_ops: 40, namings: ALL, foreign: false, exist: false, bg: 0 }, tier, seed, 500, 6000);
+    // … and with failing file-system operations, also at the start of a run (the rename of the
+    // earlier run's current file, the first open): a failed start must not cost earlier records
+    v.extend(gen_with(Opts { prop: "C06", size: true, age: true, force_rot: true, restarts: 3, cleanup: false, faults: true, ext: false, modes: false, max_ops: 30, namings: ALL, foreign: false, exist: false, bg: 0 }, tier, seed ^ 0xC6F, 200, 3000).into_iter().map(|mut c| { c[0] = c[0].replacen("C06 ", "C06 f", 1); c }));
     v.extend(gen_c06_across_month_end(tier, seed));
     v.extend(gen_c06_same_second_runs(tier, seed));
     // … and with the cleanup strategies (incl. compression): what a restart finds may be only
@@ -594,9 +597,51 @@ fn gen_c06_across_month_end(tier: &str, seed: u64) -> Vec<Vec<String>> {
     }
     cases
 }
+/// C01 where a due rotation CANNOT succeed although nothing is wrong with the file system: the
+/// index space is exhausted (a file with index 4294967294 exists at start), or the name of the
+/// rotated file would be longer than the file system allows (a very long basename whose current
+/// file name is still legal). The rotation is reported and logging continues in the file that is
+/// open; nothing is lost or reordered. Judged by the stream oracle alone (`CASE robust`: the model
+/// has unbounded indices and names).
+pub fn gen_c01_unrotatable(tier: &str, seed: u64) -> Vec<Vec<String>> {
+    let mut root = Rng::new(seed ^ 0xC01BAD);
+    let mut cases = Vec::new();
+    for k in 0..n_cases(tier, 40, 400) {
+        let mut r = root.fork();
+        let mut c = vec![format!("CASE robust C01 x{k}"), "NOTE unrotatable".to_string()];
+        let n = *r.pick(&[0u64, 5, 40]);
+        let cap = *r.pick(&[None, Some(16u64), Some(64), Some(8192)]);
+        if r.chance(1, 2) {
+            let naming = *r.pick(&["num", "numd"]);
+            c.push("SPEC 617070 _ s6c6f67 _ 0".into());
+            c.push(format!("PREFILE {} -", hexs("app_r4294967294.log")));
+            c.push(format!("CFG {}", cfg_line(&Some(format!("{n};_;{naming};never")), false, cap, false, true)));
+        } else {
+            let naming = *r.pick(&["ts", "ts", "num"]);
+            // `<basename>_rCURRENT.log` has at most 255 bytes, the rotated name more
+            let len = if naming == "ts" { r.range(231, 242) } else { 242 };
+            let base: String = (0..len).map(|i| (b'a' + (i % 26) as u8) as char).collect();
+            c.push(format!("SPEC {} _ s6c6f67 _ 0", hexs(&base)));
+            if naming == "num" { continue; }
+            c.push(format!("CFG {}", cfg_line(&Some(format!("{n};_;{naming};never")), false, cap, false, true)));
+        }
+        let mut clock = Clock::new(&mut r);
+        for seq in 0..r.range(4, 40) {
+            clock.epoch += 1;
+            c.push(format!("W {} {} -", hex(&record(seq, r.range(1, 30))), clock.tick(&mut r)));
+            match r.below(8) { 0 => { c.push("FLUSH".into()); c.push("CHECKSTREAM".into()); } 1 => c.push(format!("ROT {} -", clock.tick(&mut r))), _ => {} }
+        }
+        c.push("SHUT".into());
+        c.push("CHECKSTREAM".into());
+        c.push("END".into());
+        cases.push(c);
+    }
+    cases
+}
 pub fn gen_c07(tier: &str, seed: u64) -> Vec<Vec<String>> {
     let mut v = gen_c07_sync(tier, seed);
     v.extend(gen_c07_big(tier, seed));
+    v.extend(gen_c07_slow_thread(tier, seed));
     // the same histories with the cleanup in the background thread: after shutdown() the
     // directory must be what the synchronous cleanup leaves
     v.extend(gen_with(Opts { prop: "C07", size: true, age: true, force_rot: true, restarts: 1, cleanup: true, faults: false, ext: false, modes: false, max_ops: 40, namings: ALL, foreign: false, exist: false, bg: 1 }, tier, seed ^ 0xB6, 150, 3000));
@@ -609,6 +654,36 @@ pub fn gen_c07(tier: &str, seed: u64) -> Vec<Vec<String>> {
             .into_iter().map(|mut c| { c[0] = c[0].replacen("C07 b", "C07 t", 1); c }));
     }
     v
+}
+/// C07 with a SLOW cleanup thread and every write mode, incl. the asynchronous ones built directly
+/// with `FileLogWriter::builder` (`WriteMode::Async` keeps the cleanup thread, `AsyncWith` cleans up
+/// in the writer thread): the limits and the tail hold the moment shutdown() has returned
+fn gen_c07_slow_thread(tier: &str, seed: u64) -> Vec<Vec<String>> {
+    let mut root = Rng::new(seed ^ 0xC07515);
+    let mut cases = Vec::new();
+    for k in 0..n_cases(tier, 60, 600) {
+        let mut r = root.fork();
+        let naming = *r.pick(ALL);
+        let (spec, has_suffix) = gen_spec(&mut r, naming);
+        let mut c = vec![format!("CASE flw C07 s{k}"), spec];
+        let (mode, cap, is_async) = if r.chance(1, 2) { (r.pick_s(&["asyncdef", "asyncdef", "async:3:200", "async:50:10:3"]).to_string(), None, true) } else { pick_mode(&mut r, &[16, 100, 8192], &[1, 3, 50], &[0, 10, 200]) };
+        c.push(format!("MODE {mode}"));
+        c.push("BGCLEAN 5".into());
+        let (kk, mm) = if has_suffix { (r.below(3), r.below(3)) } else { (r.range(1, 3), 0) };
+        let (kk, mm) = if kk + mm == 0 { (1, 0) } else { (kk, mm) };
+        let n = *r.pick(&[0u64, 5, 16]);
+        c.push(format!("CFG {}", cfg_line(&Some(format!("{n};_;{naming};{kk},{mm}")), false, cap, false, has_suffix)));
+        let mut clock = Clock::new(&mut r);
+        for seq in 0..r.range(6, 24) {
+            let now = if is_async { clock.now() } else { clock.epoch += 1; clock.tick(&mut r) };
+            c.push(format!("W {} {now} -", hex(&record(seq, r.range(2, 24)))));
+        }
+        c.push("SHUT".into());
+        c.push("READ".into());
+        c.push("END".into());
+        cases.push(c);
+    }
+    cases
 }
 /// C07: rotated files of a few hundred kB with poorly compressible content (the compressed form
 /// is far larger than any internal buffer of the encoder): byte-exact round trip of the `.gz`
